@@ -4,7 +4,8 @@
    back and leaves the rest of the input.  Equal arenas have equal futures because [run] is a
    function of the arena. *)
 From IT Require Import Serde World.
-From IT.proofs Require Import SerdeProofs.
+From IT.proofs Require Import SerdeProofs Reach Reach3.
+From IT Require Import Props.
 
 Theorem C16_roundtrip : forall (a : arena) (rest : list tok),
   types_ok a -> decode (encode a ++ rest) = Some (a, rest).
@@ -23,6 +24,16 @@ Proof.
   rewrite H in Hd. inversion Hd; subst a'. destruct w; reflexivity.
 Qed.
 
+(* every reachable arena (any mix of live, removed, recycled and retired slots) meets the typing
+   side condition, so the round trip applies to it *)
+Theorem C16_reachable_types_ok : forall ops, valid_hist false init ops -> types_ok (ar (reach ops)).
+Proof. exact reach_types_ok. Qed.
+Theorem C16_roundtrip_reachable : forall ops rest, valid_hist false init ops ->
+  decode (encode (ar (reach ops)) ++ rest) = Some (ar (reach ops), rest).
+Proof. exact reach_roundtrip. Qed.
+
 Print Assumptions C16_roundtrip.
+Print Assumptions C16_reachable_types_ok.
+Print Assumptions C16_roundtrip_reachable.
 Print Assumptions C16_injective.
 Print Assumptions C16_continue.
